@@ -29,6 +29,7 @@ fn run(prop: &str, unit: &str, outp: &str) {
         budget_s: env_u64("VERIF_UNIT_BUDGET", 100000) as f64,
         strict_unexplored: props::strict_unexplored(prop),
         late_timeout_s: env_u64("VERIF_LATE_TIMEOUT", 2),
+        threads: env_u64("VERIF_THREADS", 4) as usize,
     };
     let mut ex = Explorer::new(opts);
     let rep = ex.run_unit(unit, &|| props::scenario(prop, &u));
